@@ -25,6 +25,7 @@ type World struct {
 	Files     []string // contract files read
 	SpecUFs   map[string]*SpecUF
 	SpecDefs  map[string]*SpecDef
+	GhostMaps map[string]*GhostMap
 }
 
 // ShortName is the key used in contracts and obligation names.
